@@ -42,6 +42,18 @@ def make_plan(seed: int, tier: str, opts: dict) -> dict:
         race = True
     else:
         race = False
+    if not race and r.random() < opts.get("fc_cycle_p", 0.25):
+        # "fast consumer in a cycle" family (DESIGN 6/11.3, D3): a fast node consumes a slow node's output without blocking (most of its
+        # selections expect zero messages) while the slow node blocks on the fast one; complete selections can pile up behind one that
+        # waits for a message. Long episodes, schedules that starve single workers.
+        spec2 = _fc_cycle_spec(r)
+        if sp.in_S(spec2) is None:
+            spec = spec2
+            wall = False
+            eps = [driver.gen_episode(r, j, api=r.choice(["gym", "run"]), menu=MENU, open_loop=False, nsteps=r.randint(20, 60), endings=("stop",), override_p=0.1)
+                   for j in range(r.choice([1, 2]))]
+            for ep in eps:
+                ep["slow_user"] = None
     eps[-1]["ending"] = r.choice(["stop", "stop2"])
     for j in range(len(eps) - 1):
         # an episode left running ("none") must be followed by reset(): run() without a stop() continues the old episode (API contract)
@@ -99,3 +111,35 @@ def run_plan(plan: dict, replay=None) -> dict:
     else:
         res.update(status="ok", sample=common.sample_of(plan, ro))
     return res
+
+
+def _fc_cycle_spec(r: random.Random) -> dict:
+    base = r.choice([5.0, 8.0, 10.0])
+    ratio = r.choice([2, 3])
+    def dist(per, comp):
+        k = r.random()
+        if k < 0.3:
+            return ["det", sp._r6(per * r.choice([0.0, 0.1, 0.3]))]
+        if k < 0.7:
+            return ["mix", [sp._r6(per * 0.1), sp._r6(per * (r.choice([0.8, 1.2, 1.5]) if comp else r.choice([0.6, 1.0])))], [0.7, 0.3]]
+        return ["norm", sp._r6(per * 0.3), sp._r6(per * 0.15)]
+    nodes = []
+    rates = [base, base * ratio]
+    extra = r.random() < 0.6
+    if extra:
+        rates.append(base * r.choice([1, ratio]))
+    for i, rt in enumerate(rates):
+        d = dist(1.0 / rt, True)
+        nodes.append(dict(name=f"n{i}", rate=rt, dist=d, delay=sp._r6(min(sp.dist_max(d), 1.0 / rt) * 0.5) if d[0] != "det" else None, sched=r.choice(["F", "P"]), advance=False, jit=True))
+    def conn(dst, src, blocking, skip, jitter):
+        per = min(1.0 / rates[dst], 1.0 / rates[src])
+        d = dist(per, False)
+        return dict(dst=dst, src=src, blocking=blocking, skip=skip, jitter=jitter, window=r.randint(1, 3), dist=d, delay=sp._r6(min(sp.dist_max(d), per) * 0.5) if d[0] != "det" else None)
+    conns = [conn(1, 0, False, True, "L"), conn(0, 1, True, False, r.choice(["L", "B"]))]
+    if extra:
+        conns.append(conn(2, 1, r.random() < 0.5, False, r.choice(["L", "B"])))
+        conns.append(conn(1, 2, False, True, r.choice(["L", "B"])))
+    spec = dict(nodes=nodes, conns=conns, sup=r.randrange(len(nodes)), tie=False)
+    spec["open_loop"] = len(sp.reachable_from_sup(spec)) < len(nodes)
+    sp._repair(spec)
+    return spec
